@@ -138,7 +138,7 @@ class SpecCtx:
         self.post = post if post is not None else pre
         self.res = res
         self.exc = exc
-        self.x = extra or {}
+        self.x = extra if extra is not None else {}
 
     def __getitem__(self, name):
         """z3 Val term of argument `name`"""
